@@ -1,5 +1,6 @@
 import Thanos.Model.ReadPath
 import Thanos.Lemmas.ReadPath
+import Thanos.Generated.Facts
 /-
   C04 — Deduplicated queries return each logical series once with replica data.
 
@@ -150,5 +151,16 @@ example : ¬ DisjointCuts f04Witness := by
 
 /-- without deduplication both replicas come back complete on the same input -/
 example : f04Witness.reps.map (selectRaw 1 200000) = [some (some f04S), some (some f04S)] := by decide
+
+/-! ### regenerated facts: the querier pieces the model transliterates -/
+
+theorem C04_fact_pipeline :
+    Thanos.Facts.selectFnPipeline = ["NewPromSeriesSet", "newStoreSeriesSet", "NewPromSeriesSet",
+      "dedup.NewOverlapSplit", "newStoreSeriesSet", "dedup.NewSeriesSet"] ∧
+    Thanos.Facts.overlapSplitFit =
+      "len(o.replicas[ri]) == 0 || o.replicas[ri][len(o.replicas[ri])-1].MaxTime < currMinTime" ∧
+    Thanos.Facts.chunkIterSwitchSeek = ["lastT + 1"] ∧
+    Thanos.Facts.chunkIterSeekStop = "ct >= t" ∧
+    Thanos.Facts.boundedSeekTests = ["t > it.maxt", "t < it.mint"] := by decide
 
 end Thanos.Dedup
